@@ -6,6 +6,7 @@
      Forest::breadth_first_retain (FnMut predicate)       retain_vec, retain_q, kept_paths,
                                                           breadth_first_retain
      clean_up_dependencies (HashSet::remove predicate)    clean_up
+     FormattedTree::fmt_both, Palette (Display / Debug)   show_tree, palette_ascii, palette_graph
 
    The Rust code mutates the forest in place through a queue of `&mut Tree`.  The model keeps the
    forest immutable: every node is labelled with its path (index of the root, index of the child,
@@ -114,3 +115,28 @@ Definition set_remove {K} (keq : K -> K -> bool) (k : K) (s : list K) : bool * l
 Definition clean_up {A K} (keq : K -> K -> bool) (cid : A -> K) (F : list (tree A)) : list (tree A) :=
   let set := map cid (flat_map (fun t => breadth_first [t]) F) in
   breadth_first_retain (fun s a => set_remove keq (cid a) s) set F.
+
+(* ---- Display / Debug for Tree and FormattedTree (fmt_both): the root's line, then the nodes depth first in
+   declaration order (the queue is filled from the front with the children reversed), each on a line of its own:
+   for every ancestor below the root a skip (blank under a last child, a bar otherwise), then the item mark
+   (corner for a last child, tee otherwise), then the data ---- *)
+Record palette := mkPalette { middle_item : str; middle_skip : str; last_item : str; last_skip : str }.
+Definition palette_ascii : palette := mkPalette [43;45;32] [124;32;32] [92;45;32] [32;32;32].        (* "+- " "|  " "\- " "   " *)
+Definition palette_graph : palette :=
+  mkPalette [9500;9472;9472;32] [9474;32;32;32] [9492;9472;9472;32] [32;32;32;32].                  (* "├── " "│   " "└── " "    " *)
+
+Definition show_kids_with {A} (show_sub : list bool -> bool -> tree A -> str) (is_last_path : list bool) :=
+  fix go (cs : list (tree A)) : str :=
+    match cs with
+    | [] => []
+    | c :: cs' => show_sub is_last_path (match cs' with [] => true | _ => false end) c ++ go cs'
+    end.
+Fixpoint show_sub {A} (show : A -> str) (pal : palette) (is_last_path : list bool) (last : bool) (t : tree A) : str :=
+  match t with
+  | Node a cs =>
+      flat_map (fun l : bool => if l then last_skip pal else middle_skip pal) is_last_path
+      ++ (if last then last_item pal else middle_item pal) ++ show a ++ [10]
+      ++ show_kids_with (show_sub show pal) (is_last_path ++ [last]) cs
+  end.
+Definition show_tree {A} (show : A -> str) (pal : palette) (t : tree A) : str :=
+  match t with Node a cs => show a ++ [10] ++ show_kids_with (show_sub show pal) [] cs end.
